@@ -654,5 +654,16 @@ m('valuerange-presence-by-emptiness','C05',BT,
 		} else if eo := f.ValueRangeFilter.GetEndValueOpen(); len(eo) > 0 {
 			inRangeEnd = func() bool { return bytes.Compare(v, eo) < 0 }
 		}''','R63/','an explicitly empty end bound is treated as absent')
+# ---- C04 / R65: every compose source has its own precondition evaluated
+m('compose-validates-first-occurrence-only','C04',GCS,
+  '''		if err := validateConds(meta, src.conds); err != nil {
+			return nil, err
+		}
+		data = append(data, contents...)''','''		if i == 0 || srcs[i-1].filename != src.filename {
+			if err := validateConds(meta, src.conds); err != nil {
+				return nil, err
+			}
+		}
+		data = append(data, contents...)''','R65/','a source repeated right after itself is not validated against its own ifGenerationMatch')
 json.dump(M, open('/verif/mutants.json','w'), indent=1)
 print(len(M),'mutants')
